@@ -1,9 +1,10 @@
 """Run one statement through the real LineageRunner and project its column flow: set of (source atom, target column)."""
+from harness import REPO as _REPO
 import sys
 import warnings
 
-if "/repo" not in sys.path:
-    sys.path.insert(0, "/repo")
+if _REPO not in sys.path:
+    sys.path.insert(0, _REPO)
 
 
 def flow(sql, dialect="ansi", metadata=None, provider=None):
